@@ -67,6 +67,12 @@ def state_tests(m, b):
 
 
 def run(ck, m):
+    from nl import alias as _alias01
+    from props import C02 as _C02b
+    ck.rule('C01.k', 'an acknowledged write is a committed write (C02.d, repeated): every success reply of the store and the increment lies behind an '
+                     'insert into the map — a "nothing to do, the value is the same" shortcut acknowledges a set on a tombstone (whose text is the '
+                     'sentinel) and leaves the key removed')
+    _alias01.repeat(ck, m, 'C02', ('C02.d',), 'C01.k', runner=_C02b.success_implies_write)
     for k, v in RULES.items():
         ck.rule(k, v)
     P = m.prog
